@@ -1,0 +1,18 @@
+//go:build verif && gc && !purego
+
+package chacha20poly1305
+
+// VerifC01HasAsm reports whether this build contains the amd64 assembly path.
+const VerifC01HasAsm = true
+
+// VerifC01UseAVX2 reports the current value of the dispatch switch.
+func VerifC01UseAVX2() bool { return useAVX2 }
+
+// VerifC01SetAVX2 sets the dispatch switch that seal/open consult and returns the
+// previous value. Setting it to true on a CPU without AVX2 is the caller's problem.
+// Not safe for use concurrently with Seal/Open.
+func VerifC01SetAVX2(on bool) (old bool) {
+	old = useAVX2
+	useAVX2 = on
+	return old
+}
